@@ -629,10 +629,28 @@ def lazy_atomic(w: Write) -> Tuple[bool, str]:
 
 
 def run_effects(ctx: Ctx) -> RuleResult:
+    return _run_effects(ctx, 'R-SHARED-EFFECTS',
+                        'every write reachable from parse/lex/scan/parse_interactive and the interactive '
+                        'API goes to per-call state or is an atomic idempotent lazy publication',
+                        facts.ENTRY_POINTS + [q for q in facts.INTERACTIVE_API if ctx.repo.has_func(q)], full=True)
+
+
+ACCEPTS_ENTRIES = ['lark.parsers.lalr_interactive_parser:InteractiveParser.accepts',
+                   'lark.parsers.lalr_interactive_parser:InteractiveParser.choices',
+                   'lark.exceptions:UnexpectedToken.accepts']
+
+
+def run_accepts_pure(ctx: Ctx) -> RuleResult:
+    """R-ACCEPTS-PURE [C08 C13]: accepts()/choices() are functions of the current parser state only: no write
+    reachable from them outlives the call (no memo keyed by less than the whole stack)."""
+    return _run_effects(ctx, 'R-ACCEPTS-PURE',
+                        'accepts()/choices() write nothing that outlives the call (their result depends on the whole stack, '
+                        'so it cannot be cached per state)', [q for q in ACCEPTS_ENTRIES if ctx.repo.has_func(q)], full=False)
+
+
+def _run_effects(ctx: Ctx, rule_id: str, description: str, entries: List[str], full: bool) -> RuleResult:
     repo, ty, cg = ctx.repo, ctx.typer, ctx.cg
-    res = RuleResult('R-SHARED-EFFECTS', 'every write reachable from parse/lex/scan/parse_interactive and the interactive '
-                                         'API goes to per-call state or is an atomic idempotent lazy publication')
-    entries = facts.ENTRY_POINTS + [q for q in facts.INTERACTIVE_API if repo.has_func(q)]
+    res = RuleResult(rule_id, description)
     reach = cg.reach(entries)
     own = Own(ctx, reach)
     n_writes = 0
@@ -758,16 +776,20 @@ def run_effects(ctx: Ctx) -> RuleResult:
         res.finding(w.f, w.stmt, 'cannot show that this write goes to per-call state (%s)' % why.split(':', 1)[-1],
                     construct='%s %s' % (w.what, norm(w.recv)), path=cg.path_to(reach, w.f.qual))
     stale = set(RECEIVER_FACTS) - used_facts
-    if stale:
+    if stale and full:
         raise AnalysisError('receiver-facts rows matched nothing (code moved?): %s' % sorted(stale))
     res.tables['receiver_facts'] = {'%s :: %s' % k: v for k, v in RECEIVER_FACTS.items()}
     res.tables['reachable_functions'] = len(reach)
     res.tables['writes'] = n_writes
     res.tables['classification'] = classified
     res.tables['lazy_publications'] = ['%s.%s in %s' % (norm(w.recv), w.attr, w.f.qual) for w in lazy_sites]
-    res.require_instances(len(reach), 150, 'functions reachable from the entry points')
-    res.require_instances(n_writes, 150, 'write sites in reachable functions')
-    res.require_instances(len(lazy_sites), 2, 'lazy publications (scanner caches)')
+    if full:
+        res.require_instances(len(reach), 150, 'functions reachable from the entry points')
+        res.require_instances(n_writes, 150, 'write sites in reachable functions')
+        res.require_instances(len(lazy_sites), 2, 'lazy publications (scanner caches)')
+    else:
+        res.require_instances(len(reach), 10, 'functions reachable from accepts()')
+        res.require_instances(n_writes, 8, 'write sites reachable from accepts()')
     return res
 
 
